@@ -19,6 +19,40 @@ theorem vliCeil4_add_ceil (a b : Nat) : vliCeil4 (vliCeil4 a + b) = vliCeil4 a +
 theorem vliCeil4_le_max {v : Nat} (h : v ≤ UNPADDED_SIZE_MAX) : vliCeil4 v ≤ UNPADDED_SIZE_MAX := by
   unfold vliCeil4 UNPADDED_SIZE_MAX at *; omega
 
+/-! ### index_file_size -/
+
+theorem indexFileSize_ne_unknown {cb us rc ls pad : Nat} (h : indexFileSize cb us rc ls pad ≠ VLI_UNKNOWN) :
+    cb + 2 * STREAM_HEADER_SIZE + pad + vliCeil4 us + indexSize rc ls ≤ VLI_MAX := by
+  unfold indexFileSize at h
+  by_cases h1 : cb + 2 * STREAM_HEADER_SIZE + pad + vliCeil4 us > VLI_MAX
+  · simp [h1] at h
+  · by_cases h2 : cb + 2 * STREAM_HEADER_SIZE + pad + vliCeil4 us + indexSize rc ls > VLI_MAX
+    · simp [h1, h2] at h
+    · omega
+
+theorem indexFileSize_of_le {cb us rc ls pad : Nat}
+    (h : cb + 2 * STREAM_HEADER_SIZE + pad + vliCeil4 us + indexSize rc ls ≤ VLI_MAX) :
+    indexFileSize cb us rc ls pad = cb + 2 * STREAM_HEADER_SIZE + pad + vliCeil4 us + indexSize rc ls := by
+  unfold indexFileSize
+  have h1 : ¬ cb + 2 * STREAM_HEADER_SIZE + pad + vliCeil4 us > VLI_MAX := by omega
+  have h2 : ¬ cb + 2 * STREAM_HEADER_SIZE + pad + vliCeil4 us + indexSize rc ls > VLI_MAX := by omega
+  simp [h1, h2]
+
+theorem indexFileSize_eq_unknown_iff {cb us rc ls pad : Nat} :
+    indexFileSize cb us rc ls pad = VLI_UNKNOWN ↔
+      cb + 2 * STREAM_HEADER_SIZE + pad + vliCeil4 us + indexSize rc ls > VLI_MAX := by
+  constructor
+  · intro h
+    apply Classical.byContradiction
+    intro hn
+    rw [indexFileSize_of_le (by omega)] at h
+    unfold VLI_UNKNOWN VLI_MAX at *; omega
+  · intro h
+    apply Classical.byContradiction
+    intro hn
+    have := indexFileSize_ne_unknown hn
+    omega
+
 /-! ### VLI encoding -/
 
 theorem vliEncode_lt {v : Nat} (h : v < 128) : vliEncode v = [UInt8.ofNat v] := by
